@@ -597,7 +597,8 @@ def shards(tier):
     out = [("hyp", k, 12) for k in range(12)]
     out += [("real", k, 4) for k in range(4)]
     out += [("box2", k, 8) for k in range(8)]
-    out += [("box3", k, 64) for k in range(64)]
+    if os.environ.get("VPBT_SKIP_BOX3") != "1":   # development aid only (seed sweeps: the box does not depend on the seed)
+        out += [("box3", k, 64) for k in range(64)]
     return out
 
 
